@@ -10,6 +10,7 @@ PROPS = {
         "lean_modules": ["QrlewModel.Props.C11"],
         "streams": [
             {"name": "intervals", "n_quick": 4000, "n_thorough": 200000},
+            {"name": "dtype", "n_quick": 40000, "n_thorough": 2000000, "compare": False},
         ],
         "rule": "intervals: random operation histories (union/intersection with interval or set, hull) over rank-encoded i64/f64/String bounds, "
                 "4 profiles (small grids for touching/nested endpoints, stride profiles forcing >=128 intervals); a case is distinct by its JSON and "
